@@ -546,6 +546,13 @@ func (env *Env) evalField(x EField) Val {
 	v := env.eval(x.X)
 	// ghost fields
 	if g, ok := e.contracts.Ghosts[x.Name]; ok {
+		if v.K == KScalar && v.Typ != nil {
+			if pt, isPtr := under(v.Typ).(*types.Pointer); isPtr {
+				if stt, isStruct := under(pt.Elem()).(*types.Struct); isStruct && promotedPath(stt, x.Name) != nil {
+					cerr("%s is both a ghost field and a field of %s: rename the ghost", x.Name, pt.Elem())
+				}
+			}
+		}
 		ref := v.T
 		switch v.K {
 		case KIface:
